@@ -12,6 +12,8 @@ CLAIMS = {
          "assumed: ghost file system (os.File/bufio/io models), C CRC loop (table proved, step lemma proved, loop bounded-checked); I/O errors other than end-of-file are excluded for the scanner (reliable_io)"),
  "C10": ("flag/ownership logic around compression is the identity for clients given the assumed QuickLZ codec relation; value hash taken from the uncompressed bytes; safe decompress entry points and C<->Go round trips (incl. matches at the format's offset/length thresholds) as bounded stand-ins",
          "assumed: QuickLZ codecs (C and Go) related through an uninterpreted decompression function; CArray.Alloc (cgo malloc); bounded (not proof): cross round trips, safe-decompress fuzz. Not under contract: the read paths that call Decompress (GetRecordByOffset), hint rebuild (buildHintFromData)"),
+ "C11": ("ServerConn.ServeOnce, for every outcome of the parser, the interpreter, the storage client and the clock: when it returns without error and the connection stays open, the command got a reply (at least one byte written to the connection's writer) unless it asked for noreply, every byte written has been flushed, and the per-connection request object is reset (NoReply false, no item) so nothing carries over to the next command; Request.Clear and Shutdown verified",
+         "scope: executions in which no callee panics (recover() is modelled as an arbitrary value; what a panic inside Read/Process skips is not modelled, so the 'never crashes / never wedged' half of C11 and design findings F5/F13 are not decided); assumed: Request.Read (parser: string splitting, number parsing are opaque), Request.Process, Response.Write (a reply is >= 1 byte, nothing for noreply), token limiter, bufio.Writer as a ghost byte stream with a flushed prefix. Not covered: syntactic validity of replies, byte-exact value transfer, request/response round trip (string formats are opaque to the verifier), ordering across pipelined commands beyond 'flushed before the next read'"),
  "C12": ("per-call contribution contracts of the buffer counters: ResourceLimiter arithmetic, CArray alloc/free/copy, TryCompress/Decompress/Copy allocation balance, readRecordAt and the scanner, Bucket.get (a returned payload is charged exactly once, nothing else), Bucket.incr and HStore.Incr (GetData returns to its old value), Bucket.set (SetData -> FlushData move)",
          "not under contract: the protocol layer (Request.Read/Process, ServeOnce, request tokens), StorageClient, Bucket.checkAndSet (contract exists, not in the check), dataChunk.flush; AppendRecord/GetRecordByPos accounting clauses are assumed (read off the code); counters are treated sequentially (atomics as plain adds); environment failures (refused allocation) are outside the clauses"),
  "C13": ("hint buffer: representation invariant preserved, whole-view postcondition (every other (hash,key) pair reads back unchanged, a refused Set changes nothing), Set/Get composition lemmas; collision table compareAndSet/get whole-view postconditions (newest position wins unless GC relocates; other entries untouched); merge writer reports every member of a same-hash group",
@@ -38,7 +40,6 @@ NA = {
 PENDING = "contract chain not completed: the top-level obligations of this property are not under contract (DESIGN.md §0 and §3 say what exists and what is missing)"
 NA.update({
  "C02": "not decided: restart/recovery (Bucket.open, hint replay, tree dump/load, directory listing) is not under contract; only the pieces shared with C09/C14 (record scanner, hint codec) are verified — contract chain not completed (DESIGN.md §3 C02)",
- "C11": "not decided: the protocol layer (memcache.Request.Read/Process, ServerConn.ServeOnce) is not under contract; the engine's panic/recover paths and string-level reasoning were not reached — contract chain not completed (DESIGN.md §3 C11)",
 })
 
 props = [json.loads(l) for l in open('/verif/properties.jsonl')]
